@@ -292,4 +292,29 @@ class get_arg_ctx_ast(_CtxSpec):
         return [("coded_hash_error", e.cls is DS.DDSException and e.ident == "hash_error")]
 
 
-SPECS = [get_arg_ctx, get_arg_ctx_ast]
+class get_arg_ctx_ast_no_signature(get_arg_ctx_ast):
+    """a callable whose signature cannot be read (inspect.signature raises ValueError: a class whose constructor is the one of
+    a builtin type -- a subclass of dict, of an exception class): no parameter is known, and that is not an error"""
+
+    variant = "inspect.signature raises ValueError"
+
+    def __init__(self):
+        super().__init__()
+        cls = dict(self.classes["inspect"])
+        cls["signature"] = Model(self.m_no_signature, "inspect.signature (no signature found)")
+        self.classes["inspect"] = cls
+        self.globals["OrderedDict"] = Model(lambda eng, a, k, n: a[0] if a else Sym(z3.Empty(TSeq(ENTRY).sort()), TSeq(ENTRY)), "OrderedDict")
+
+    def m_no_signature(self, eng, args, kwargs, node):
+        raise _Raise(ExcVal(ValueError))
+
+    def ensures(self, ctx):
+        r = ctx.result
+        t = r.term if isinstance(r, Sym) else r.sym().term
+        return [("no_entry_without_a_readable_signature", z3.Length(t) == 0)]
+
+    def signals(self, ctx):
+        return [("a_callable_without_readable_signature_is_not_an_error", False)]
+
+
+SPECS = [get_arg_ctx, get_arg_ctx_ast, get_arg_ctx_ast_no_signature]
